@@ -128,6 +128,10 @@ class Board:
         elif kind == 'sev':
             r.event_register = True
             self.count('fault.sev')
+        elif kind == 'unmap':
+            # the front-end unmaps devices: every controller behind the first 'keep' ones is taken out of the hub's public list
+            del arm.mem.memories[ev.get('keep', 3):]
+            self.count('fault.devices-unmapped')
         elif kind == 'regswap':
             # the integrator restores a checkpoint of the register file: arm.registers is REPLACED by a deep copy of itself (same state, another
             # object).  Whatever the processor does afterwards must be done to the register file it now has
